@@ -30,6 +30,7 @@ func transport.ParseURL(rawurl) (r, err)
   ensures ok-nonnil: err == nil ==> r != nil
   ensures target: r != nil ==> same(r.Target, proj(path.Split(strings.ToUpper(gPath)), 1)) && len(r.Target) >= 3
   ensures short-target: gParseErr == nil && len(proj(path.Split(strings.ToUpper(gPath)), 1)) < 3 ==> r == nil && err == ErrInvalidTarget
+  ensures target-of-three-or-more-accepted: gParseErr == nil && len(proj(path.Split(strings.ToUpper(gPath)), 1)) >= 3 ==> r != nil
   ensures scheme-user: r != nil ==> same(r.Scheme, gScheme) && r.User == gUser
   ensures params: r != nil ==> r.Params == url.(*URL).Query(gU)
   ensures host-param: r != nil && url.(Values).Get(r.Params, "host") != "" ==> same(r.Host, url.(Values).Get(r.Params, "host"))
